@@ -209,6 +209,35 @@ theorem streamed_prefix_none_is_untouched (script : List Act) (i : Nat)
   have h4 : p.1.body = [] := by rw [← hi.flu]; exact hi.nof hs
   exact ⟨h3, h4, h1, h2⟩
 
+/-! ### a handler goroutine that ends by `runtime.Goexit` (or blocks for good)
+
+`runtime.Goexit` runs the deferred calls of ServeHTTP's worker goroutine — `recover()` returns nil, so nothing is sent on
+`panicChan` — and `close(done)` is never reached: for ServeHTTP such a handler is one that has performed a prefix of its
+script and never takes another step.  The transition system has those schedules already; what the property demands of
+them: -/
+
+/-- while the handler goroutine has neither returned nor panicked, ServeHTTP cannot come back through `done` or through
+`panicChan`: the ONLY way out is the timeout branch (always enabled once the context has ended:
+`timeout_branch_always_enabled`), whose response `response_with_flush` describes — never the "complete" result of the
+prefix the handler happened to perform -/
+theorem stalled_handler_returns_only_by_timeout (reason : List Nat) (script : List Act) (s : St)
+    (hr : Reachable reason script s) (hrun : s.hst = .running) :
+    step reason s .mDone = none ∧ step reason s .mPanic = none := by
+  have hi := inv_reachable hr
+  have hd : s.done = false := by
+    cases h : s.done with
+    | false => rfl
+    | true => have := hi.done_fin.mp h; rw [hrun] at this; cases this
+  have hp : s.panicChan = none := by
+    cases h : s.panicChan with
+    | none => rfl
+    | some v => have := hi.pan v h; rw [hrun] at this; cases this
+  constructor
+  · simp only [step]; split <;> simp [hd]
+  · simp only [step, hp]; split <;> simp_all
+
+example : step [82] (St.init [.write [97]]) .mDone = none := by decide
+
 /-! ### non-vacuity -/
 example : Spec.completes [.writeHeader 404, .write [97], .flush, .write [98], .flush, .setHeader 1 2, .write [99]] false = true := by decide
 example :
